@@ -176,3 +176,20 @@ def expect_login_direct(result):
                                                  "a fresh process: C_Login(%s, %s) answered %s, expected %s (the PIN most recently set by ANY process authenticates, a replaced one does not)" % ("user" if op[2] == "1" else "SO", bytes.fromhex(op[3]).decode("latin1"), res[1], want)))
             want = None
     return out
+
+
+def mxstat_direct(result):
+    """`nop mxstat` (after `initix` rounds): the application's mutex callbacks were handed a handle they never issued or had destroyed (`bad`), or a mutex was locked while
+    locked by the only thread there is (`relock`: with real mutexes the call would never return)"""
+    out, last = [], None
+    for op, res in iter_ops(result):
+        if op[:2] == ["nop", "mxstat"] and len(res) >= 5:
+            created, destroyed, bad, relock = (int(x) for x in res[1:5])
+            if bad and "mutex-bad-handle" not in [s for s, _ in out]:
+                out.append(("mutex-bad-handle", "the library called the application's mutex functions %d time(s) with a handle they never issued or had already destroyed "
+                            "(created %d, destroyed %d) - last library call before the count: `%s`" % (bad, created, destroyed, " ".join(last or [])[:120])))
+            if relock and "mutex-self-deadlock" not in [s for s, _ in out]:
+                out.append(("mutex-self-deadlock", "the library locked a mutex it already holds %d time(s) (single thread): with OS mutexes this call never returns "
+                            "- last library call before the count: `%s`" % (relock, " ".join(last or [])[:120])))
+        elif op[0] != "nop": last = op
+    return out
